@@ -243,6 +243,30 @@ def r13_5_6_spacing(chk):
     spacings = [(tuple(c) + tuple(c2), sp) for c, t in return_alternatives(cs) if t[0] == "tuple" and len(t[1]) == 2
                 for c2, sp in alternatives(t[1][0])]
     uniform = [c for c, sp in spacings if sp != NONE and any(relative_test(l) and l[0] != "not" for l in c)]
+    # ... and it is applied to every difference: the array divided by the median is the (unique) differences themselves,
+    # not a selection of them (a slice / single element / reduced value of that array)
+    partial, reductions = [], set()
+    from ..terms import call_name
+    for c, sp in spacings:
+        for l in c:
+            if not relative_test(l) or l[0] == "not":
+                continue
+            for x in subterms(l):
+                if x[0] == "bin" and x[1] == "/":
+                    num = x[2]
+                    if any(y[0] == "sub" and contains(y[1], lambda z: is_call(z, ("diff", "unique")))
+                           for y in subterms(num)):
+                        partial.append(pp(num)[:60])
+                    for y in subterms(num):
+                        if is_call(y, ("max", "min", "amax", "amin", "mean", "median", "ptp")) and \
+                                contains(y, lambda z: is_call(z, ("diff", "unique"))):
+                            reductions.add(call_name(y).lstrip("a"))
+    # (testing both the largest and the smallest difference is the same as testing all of them)
+    if reductions and not {"max", "min"} <= reductions:
+        partial.append("only the " + " / ".join(sorted(reductions)) + " of the differences")
+    chk.require(not partial, "R13.6", "tolerance-over-all-differences",
+                f"the relative tolerance test looks at a part of the index differences only ({sorted(set(partial))}): "
+                f"irregular steps elsewhere are reported as a uniform spacing", comp.where)
     chk.require(bool(close) or bool(uniform), "R13.6", "relative-tolerance-test-present",
                 "the documented relative tolerance test (squared relative deviation from the median < 0.001) no longer "
                 "decides when a non-constant spacing is reported", comp.where)
